@@ -729,7 +729,6 @@ func (x *Exec) runLoopInvariant(cfg *FuncCFG, l *Loop, spec *LoopSpec, entry []e
 		na := FreshVar("alloc.loop", SInt)
 		x.assume(sth, Ge(na, sth.alloc))
 		sth.alloc = na
-		unsupported("loop %d of %s allocates; invariant route needs an unrolled loop", l.Ordinal, fnName)
 	}
 	for _, c := range spec.Invariants {
 		x.assume(sth, evalInv(sth, c))
